@@ -278,7 +278,9 @@ class Impl:
             _, name, dims, dt, d = w
             dims = parse_dims(dims)
             try:
-                if new:
+                if new and sum(map(ord, "".join(w))) % 2 == 0 and all(dims):
+                    layer = self.M["NewLayer"].from_data(name, np.full(dims, self.to_py(dt, int(d)), dtype=eval(dt)))
+                elif new:
                     layer = self.M["NewLayer"](name, dims, default_value=self.to_py(dt, int(d)), dtype=eval(dt))
                 else:
                     if len(dims) != 2:
@@ -358,7 +360,13 @@ class Impl:
         if k == "setcells":
             layer, dt = self.layer(int(w[1]))
             cond = None if w[3] == "-" else self.pred(dt, w[3])
-            layer.set_cells(self.to_py(dt, int(w[2])), cond)
+            variant = sum(map(ord, "".join(w))) % 3
+            if new and variant == 1 and self.named(layer.name) is layer:
+                self.grid.set_property(layer.name, self.to_py(dt, int(w[2])), cond)  # the grid-level wrapper
+            elif new and variant == 2 and cond is None:
+                layer.data = self.to_py(dt, int(w[2]))  # the property setter is set_cells
+            else:
+                layer.set_cells(self.to_py(dt, int(w[2])), cond)
             self.taint_lid(int(w[1]))
             return "ok"
         if k == "modify":
@@ -366,7 +374,10 @@ class Impl:
             fn, val = self.operation(dt, w[2], w[3], w[4])
             cond = None if w[5] == "-" else self.pred(dt, w[5])
             try:
-                layer.modify_cells(fn, val, cond)
+                if new and sum(map(ord, "".join(w))) % 2 and self.named(layer.name) is layer:
+                    self.grid.modify_properties(layer.name, fn, val, cond)  # the grid-level wrapper
+                else:
+                    layer.modify_cells(fn, val, cond)
             except ValueError as e:
                 raise self.value_error(e) from None
             self.taint_lid(int(w[1]))
@@ -1110,8 +1121,11 @@ def tags(sc, obs):
             kv = dict(x.split("=", 1) for x in w[1:])
             combo = "".join(c if kv[k] not in ("-", "0") else "." for c, k in (("C", "conds"), ("M", "masks"), ("E", "oe"), ("X", "ext")))
             t.append("select:" + combo)
-            if kv["ext"] != "-" and o.split("list=")[1].split(" ")[0].count(";") >= 1:
+            lst = o.split("list=")[1].split(" ")[0]
+            bits = o.split("mask=")[1]
+            if kv["ext"] != "-" and lst.count(";") >= 1:
                 t.append("select:extreme-tie")
+            t.append("select-result:" + ("none" if not lst else "all" if "0" not in bits else "proper-subset"))
         if w[0] in ("create", "new") and o.startswith("ok"):
             t.append("dtype:" + w[-2])
         if w[0] == "modify" and o.startswith("ok"):
